@@ -188,6 +188,9 @@ pub struct XmlTreeBuilder<Handle, Sink> {
 
     /// Current tree builder phase.
     phase: Cell<XmlPhase>,
+
+    /// Whether a doctype has been appended to the document.
+    doctype_seen: Cell<bool>,
 }
 impl<Handle, Sink> XmlTreeBuilder<Handle, Sink>
 where
@@ -208,6 +211,7 @@ where
             namespace_stack: RefCell::new(NamespaceMapStack::new()),
             current_namespace: RefCell::new(NamespaceMap::empty()),
             phase: Cell::new(XmlPhase::Start),
+            doctype_seen: Cell::new(false),
         }
     }
 
@@ -661,7 +665,13 @@ where
                     XmlProcessResult::Reprocess(XmlPhase::End, Token::Eof)
                 },
                 Token::Doctype(d) => {
-                    self.append_doctype_to_doc(d);
+                    // A document has at most one doctype: a further one is a parse error and is ignored.
+                    if self.doctype_seen.replace(true) {
+                        self.sink
+                            .parse_error(Borrowed("Unexpected doctype in start phase"));
+                    } else {
+                        self.append_doctype_to_doc(d);
+                    }
                     XmlProcessResult::Done
                 },
                 _ => {
